@@ -362,6 +362,9 @@ def run_property(prop, harness_specs, tier, seed, level_note="", only=None, jobs
         h = getattr(importlib.import_module(hmod), hname)()
         meta[hname] = h
         for cfg in h.configs(tier):
+            m = os.environ.get("VERIF_MATCH")      # experiments only: restrict to configurations containing a substring
+            if m and m not in json.dumps(cfg):
+                continue
             tasks.append((hmod, hname, cfg, tier, seed))
     tasks.sort(key=lambda t: -meta[t[1]].cost * float(t[2].get("_cost", 1)))
     jobs = jobs or min(16, os.cpu_count() or 4, max(1, len(tasks)))
